@@ -256,6 +256,43 @@ let mime_case (toks : string list) : string =
      | M.Inl M.EUnsup -> "B UNSUPPORTED-BY-MODEL")
   | _ -> "BADCASE"
 
+(* ---------------- cookies (C17) ---------------- *)
+
+let cookie_fields (c : unit M.cookie) : string =
+  let opt = function Some v -> "S" ^ (let h = hex_of_bytes v in if h = "-" then "-" else h) | None -> "N" in
+  let ext = List.sort compare (List.map (fun (k, v) -> hex_of_bytes k ^ "=" ^ hex_of_bytes v) c.M.c_ext) in
+  Printf.sprintf "%s %s %s %s %s %s %d %d e=%s" (hex_of_bytes c.M.c_name) (hex_of_bytes c.M.c_value)
+    (opt c.M.c_path) (opt c.M.c_domain)
+    (match c.M.c_maxage with Some n -> decimal_of_n n | None -> "N") "N"
+    (if c.M.c_secure then 1 else 0) (if c.M.c_httponly then 1 else 0)
+    (if ext = [] then "-" else String.concat "," ext)
+
+let cookie_case (toks : string list) : string =
+  let date_write () = [] and date_parse _ = None in
+  match toks with
+  | [ "C"; text ] ->
+    (match M.from_raw date_parse (bytes_of_hex text) with
+     | Some c -> "C ok " ^ cookie_fields c
+     | None -> "C err")
+  | "W" :: _ :: _ :: _ :: _ :: _ :: expires :: _ when expires <> "-" -> "IMPL-ONLY"
+  | "W" :: name :: value :: path :: domain :: maxage :: _expires :: secure :: httponly :: ext ->
+    let o x = if x = "-" then None else Some (bytes_of_hex (String.sub x 1 (String.length x - 1))) in
+    let c = { M.c_name = bytes_of_hex name; M.c_value = bytes_of_hex value; M.c_path = o path; M.c_domain = o domain;
+              M.c_maxage = (if maxage = "-" then None else Some (n_of_int (int_of_string maxage)));
+              M.c_expires = None; M.c_secure = (secure = "1"); M.c_httponly = (httponly = "1");
+              M.c_ext = List.map (fun x -> match String.split_on_char '=' x with [ k; v ] -> (bytes_of_hex k, bytes_of_hex v) | _ -> ([], [])) ext } in
+    let back = match M.from_raw date_parse (M.write_cookie date_write c) with
+      | Some c' -> "ok " ^ cookie_fields c' | None -> "err" in
+    "W " ^ back ^ " | ok " ^ cookie_fields c
+  | [ "J"; text ] ->
+    (match M.jar_add_from_raw [] (bytes_of_hex text) with
+     | None -> "J err"
+     | Some j ->
+       let ps = List.sort compare (List.map (fun (k, v) -> hex_of_bytes k ^ "=" ^ hex_of_bytes v) j) in
+       let l = String.concat "" (List.map (fun x -> " " ^ x) ps) in
+       "J ok" ^ l ^ " | post" ^ l)
+  | _ -> "BADCASE"
+
 let () =
   let area = Sys.argv.(1) in
   let f = match area with
@@ -267,6 +304,7 @@ let () =
     | "promise" -> promise_case
     | "net" -> net_case
     | "mime" -> mime_case
+    | "cookie" -> cookie_case
     | _ -> failwith ("unknown area " ^ area) in
   try
     while true do
